@@ -36,7 +36,10 @@ func vfWrapKind(t tabular.Table, k int) tabular.Table {
 // wrappers are nested around it; package functions, wrapper methods and auto agree.
 func VerifC10_wrappers() {
 	a := vfString("a", 2, vfTXT)
-	b := vfString("b", 1, vfTXT)
+	b := "b"
+	if vfTier() == 1 {
+		b = vfString("b", 1, vfTXT)
+	}
 	var t tabular.Table
 	create := vfChoice("create", 9)
 	switch create {
@@ -78,7 +81,7 @@ func VerifC10_wrappers() {
 	var refOut, out, viaWrap, viaTo, viaAuto string
 	var refErr, err, errWrap, errTo, errAuto error
 	var buf bytes.Buffer
-	format := vfChoice("format", 4)
+	format := vfChoice("format", 5)
 	switch format {
 	case 0:
 		refOut, refErr = csv.Render(ref)
@@ -105,6 +108,12 @@ func VerifC10_wrappers() {
 		errTo = texttable.RenderTo(w, &buf)
 		viaAuto, errAuto = Render(w, "texttable")
 		vfTag("text-format")
+	case 4:
+		refOut, refErr = html.Wrap(ref).Render()
+		out, err = html.Wrap(w).Render()
+		viaWrap, errWrap = Wrap(w, "html.anything").Render()
+		errTo = html.Wrap(w).RenderTo(&buf)
+		viaAuto, errAuto = Render(w, "HTML")
 	}
 	viaTo = buf.String()
 	vfObserveStr("ref", refOut)
